@@ -231,6 +231,10 @@ type GenOpts struct {
 	DedicatedConn bool `json:"dedicated_conn,omitempty"`
 	// BigBlob: most blob values are 40-60 KB of random bytes
 	BigBlob bool `json:"big_blob,omitempty"`
+	// CollidingKeys: the first two rows of a table with the composite key
+	// (org, code) are (1, "11") and (11, "1"): different keys whose values,
+	// written one after the other, read the same (C09-i)
+	CollidingKeys bool `json:"colliding_keys,omitempty"`
 }
 
 var allTypes = []string{"int", "bigint", "varchar", "decimal", "double", "float", "datetime", "datetime3", "text", "blob", "tinyint", "date", "mediumtext", "longtext", "char", "smallint", "varbinary"}
@@ -406,6 +410,12 @@ func genTable(g *simkit.Gen, name string, o GenOpts) TableDef {
 		}
 		seen[strings.ToLower(k)] = true
 		t.Rows = append(t.Rows, row)
+	}
+	if o.CollidingKeys && len(t.PK) == 2 && t.PK[1] == "code" && len(t.Rows) >= 2 {
+		// the other rows' codes begin with a letter: no clash with these two
+		oi, ci := t.colIdx("org"), t.colIdx("code")
+		t.Rows[0][oi], t.Rows[0][ci] = VI(1), VS("11")
+		t.Rows[1][oi], t.Rows[1][ci] = VI(11), VS("1")
 	}
 	return t
 }
